@@ -41,7 +41,7 @@ fn tree_family_cases(r: &mut Rng, t: Tier, fam: &str, ops: &[&str], extra: &[&st
             budget: if big { 120 } else { 400 },
             extra,
             max_card: if huff { 300 } else { 2000 },
-            max_symbol: if huff { Some(if i % 5 == 0 { 200_000 } else { 4_000 }) } else { None },
+            max_symbol: if huff { Some(if i % 3 == 0 { 200_000 } else { 4_000 }) } else { None },
         };
         out.push(tree_case(r, &o));
     }
@@ -1119,6 +1119,27 @@ pub fn cases(prop: &str, t: Tier, seed: u64) -> Vec<Case> {
             tree_family_cases(r, t, "hwt", &[], &ex, scale(t, 24, 160), &mut out);
             huff_profile_cases(r, t, "hqwt", &[], &ex, &mut out);
             huff_profile_cases(r, t, "hwt", &[], &ex, &mut out);
+            // counts above 2^16 (and, thorough, above 2^17) for several symbols plus a dominant one
+            for (k, fam) in ["hwt", "hqwt"].iter().enumerate() {
+                let mut c = Case::new(fam);
+                c.tag("large-skewed");
+                c.nontrivial = true;
+                let minor = if t == Tier::Quick { 3 } else { 8 };
+                let per = 66_000 + r.below(3000) as usize;
+                let dom = per * minor * 85 / 15;
+                c.l(format!("cfg 256 {} 8 * u8", k));
+                c.l(format!("tie {}", r.next() | 1));
+                let mut args = format!(" {} {}", 7, dom);
+                for j in 0..minor {
+                    args.push_str(&format!(" {} {}", 20 + 3 * j, per + j));
+                }
+                c.l(format!("mk 0 {}:rle{}", fam, args));
+                c.l("lenschk 0");
+                for e in ex {
+                    c.l(e.to_string());
+                }
+                out.push(c);
+            }
         }
         "C17" => utils_cases(r, t, &mut out),
         "C18" => {
@@ -1220,6 +1241,31 @@ pub fn cases(prop: &str, t: Tier, seed: u64) -> Vec<Case> {
                     c.lines.extend(retarget(&qs0, 0, 5));
                 }
                 out.push(c);
+            }
+            // the empty sequence through every construction path of every family
+            for (b, pfs) in QWT_CFGS {
+                for ty in [TYS[0], TYS[3], TYS[5]] {
+                    let mut c = Case::new("paths-empty");
+                    c.tag("empty-paths");
+                    c.l(format!("cfg {} {} {} * {}", b, pfs as u8, ty.1, ty.0));
+                    for fam in ["qwt", "hqwt", "wt", "hwt"] {
+                        c.l(format!("mk 0 {}:new", fam));
+                        c.l(format!("mk 1 {}:from", fam));
+                        c.l(format!("mk 2 {}:iter", fam));
+                        c.l("mk 3 copy 0");
+                        for k in 0..4 {
+                            c.l(format!("q {} len", k));
+                            c.l(format!("q {} n_levels", k));
+                            c.l(format!("q {} get 0", k));
+                            c.l(format!("q {} rank 0 0", k));
+                            c.l(format!("dump {}", k));
+                        }
+                        c.l("eq 0 1");
+                        c.l("eq 0 2");
+                        c.l("eq 0 3");
+                    }
+                    out.push(c);
+                }
             }
             // non-tree structures: constructors agree, clones equal, different inputs differ
             for i in 0..scale(t, 40, 240) {
